@@ -36,7 +36,8 @@ CONSTANTS Catalogue,  \* sequence of basis sets (each a sequence of K vectors of
           TrainMax,   \* training values 0..TrainMax
           RSet,       \* numbers of training RDMs explored
           ThinR,      \* keep one admissible training row in ThinR (1 = all)
-          ThinT,      \* keep one training stack in ThinT
+          Thin1,      \* keep one single-RDM training stack in Thin1
+          ThinT,      \* keep one training stack of two or more RDMs in ThinT
           PatSels,    \* set of pattern_idx sequences (0-based condition indices)
           CompMax,    \* competitor weights -CompMax..CompMax
           LinGrid     \* "lin" behaviours: second weight vector ranges over -LinGrid..LinGrid
@@ -122,7 +123,8 @@ TrainRows == {x \in [1..L -> 0..TrainMax] : NonConst(x) /\ (ThinR = 1 \/ RowKey(
 TrainStacks == UNION {{v \in [1..R -> TrainRows] :
                          LET ks == [r \in 1..R |-> RowKey(v[r])] IN
                          /\ \A r \in 1..R : \A s \in 1..R : r < s => ks[r] <= ks[s]
-                         /\ (ThinT = 1 \/ SumS([r \in 1..R |-> ks[r] * (2 * r + 1)]) % ThinT = 0)}
+                         /\ LET th == IF R = 1 THEN Thin1 ELSE ThinT IN
+                            (th = 1 \/ SumS([r \in 1..R |-> ks[r] * (2 * r + 1)]) % th = 0)}
                       : R \in RSet}
 
 Common == /\ objs = [o \in 1..MaxObj |-> IF o = 1 THEN Source ELSE Null] /\ hist = <<>>
@@ -141,11 +143,11 @@ Adversary == /\ pc = "prob" /\ comp' \in CompSpace /\ pc' = "comp"
 
 \* "lin" behaviours: predictions only (clauses g, h)
 LInit == /\ Common /\ bid \in 1..Len(Catalogue) /\ train = <<>> /\ pidx = <<>>
-         /\ pc = "lin0" /\ comp = <<>> /\ th2 = <<>> /\ cc = 0
+         /\ pc = "lin0" /\ comp \in [1..Len(Catalogue[bid]) -> (-CompMax)..CompMax] /\ th2 = <<>> /\ cc = 0
 PickThetas == /\ pc = "lin0"
-              /\ comp' \in [1..K -> (-CompMax)..CompMax] /\ th2' \in [1..K -> (-LinGrid)..LinGrid]
+              /\ th2' \in [1..K -> (-LinGrid)..LinGrid]
               /\ cc' \in {-2, 3} /\ pc' = "lin"
-              /\ UNCHANGED <<objs, hist, bid, train, pidx>>
+              /\ UNCHANGED <<objs, hist, bid, train, pidx, comp>>
 FNext == Adversary \/ PickThetas
 
 (* ---------------- theorems ------------------------------------------------------ *)
